@@ -168,8 +168,8 @@ Definition tol3 : Q := 1 # 1000.
 Definition qabs (x : Q) : Q := if Qle_bool 0 x then x else - x.
 
 Definition redistribute (r1 r2 : list Q) : res (list Q) :=
-  if negb (Nat.eqb (List.length r1) (List.length r2)) then Rejected          (* numpy shape error *)
-  else if Qltb (qsum r2) (qsum r1) then Skip                        (* `return None`: round 2 is abandoned *)
+  if Qltb (qsum r2) (qsum r1) then Skip                             (* `return None`: round 2 is abandoned *)
+  else if negb (Nat.eqb (List.length r1) (List.length r2)) then Rejected   (* numpy shape error at r2 - r1 *)
   else
     let n := List.length r2 in
     let diff := tab n (fun m => nth m r2 0 - nth m r1 0) in
